@@ -16,6 +16,7 @@ import (
 
 	gtb "github.com/google/gce-tcb-verifier/gcetcbendorsement"
 	epb "github.com/google/gce-tcb-verifier/proto/endorsement"
+	"github.com/google/gce-tcb-verifier/sev"
 	"github.com/google/gce-tcb-verifier/verifhook"
 	"github.com/google/gce-tcb-verifier/verify"
 	spb "github.com/google/go-sev-guest/proto/sevsnp"
@@ -126,7 +127,13 @@ func newC09env() (*c09env, error) {
 		}
 	}
 	e.sevOptBase = func() *gtb.SevValidateOptions {
-		return &gtb.SevValidateOptions{RootsOfTrust: pool(m.RootCert), Now: now, ExpectedLaunchVmsas: 2,
+		// the verification time is left unset (the wall clock decides) when the wall clock lies inside
+		// the fixture certificates' validity: a default written into the shared options is then visible
+		vt := now
+		if wall := time.Now(); wall.After(m.SignNB.Add(24*time.Hour)) && wall.Before(m.SignNA.Add(-24*time.Hour)) {
+			vt = time.Time{}
+		}
+		return &gtb.SevValidateOptions{RootsOfTrust: pool(m.RootCert), Now: vt, ExpectedLaunchVmsas: 2,
 			BasePolicy: &cpb.Policy{MinimumVersion: "0.0", MinimumBuild: 0}}
 	}
 	for b := 0; b < 2; b++ {
@@ -286,10 +293,39 @@ func RunC09(run *vk.Run) {
 						calls = append(calls, func() error { return gtb.SevValidate(ctx, a, sevShared) })
 					}
 				}
+				// the options values the calls share, as configured by the caller
+				sharedBefore := *shared
+				sevBefore, sevNoBefore, sevBaseBefore := *sevShared, *sevSharedNo, *sevSharedBase
+				baseBefore := proto.Clone(sevSharedBase.BasePolicy)
 				res, ferr := forced(calls, c.Sched)
 				if ferr != nil {
 					run.Infra(ferr)
 					return
+				}
+				// "the outcome depends only on ... the options the caller configured": the calls must not
+				// reconfigure the shared options (a time, an endorsement or a policy written into them is
+				// seen by every later call)
+				changed := ""
+				switch {
+				case mode == "one-validator" || mode == "validators-sharing-options":
+					if !shared.Now.Equal(sharedBefore.Now) || shared.Endorsement != sharedBefore.Endorsement || shared.Getter != sharedBefore.Getter || shared.RootsOfTrust != sharedBefore.RootsOfTrust || !bytes.Equal(shared.ExpectedUefiSha384, sharedBefore.ExpectedUefiSha384) {
+						changed = "verify.Options"
+					}
+				case mode == "SevValidate":
+					if !sevShared.Now.Equal(sevBefore.Now) || sevShared.Endorsement != sevBefore.Endorsement || sevShared.BasePolicy != sevBefore.BasePolicy || sevShared.ExpectedLaunchVmsas != sevBefore.ExpectedLaunchVmsas {
+						changed = "SevValidateOptions"
+					}
+				case mode == "SevValidate-extracting":
+					if !sevSharedNo.Now.Equal(sevNoBefore.Now) || sevSharedNo.Endorsement != sevNoBefore.Endorsement || sevSharedNo.BasePolicy != sevNoBefore.BasePolicy {
+						changed = "SevValidateOptions"
+					}
+				default:
+					if !sevSharedBase.Now.Equal(sevBaseBefore.Now) || sevSharedBase.Endorsement != sevBaseBefore.Endorsement || !proto.Equal(sevSharedBase.BasePolicy, baseBefore) {
+						changed = "SevValidateOptions"
+					}
+				}
+				if changed != "" {
+					run.Violation("options-reconfigured:"+mode, fmt.Sprintf("the shared %s value was modified by the validation calls (%s): later calls no longer run with what the caller configured", changed, mode), map[string]any{"mode": mode})
 				}
 				for p, acc := range res {
 					if acc != env.alone[c.Att[p]] {
@@ -305,6 +341,102 @@ func RunC09(run *vk.Run) {
 			}
 			if i == len(em.Cases)/2 {
 				run.Sample(map[string]any{"calls": c.Att, "schedule": c.Sched})
+			}
+		}
+	}
+	// validators for two firmware families built from one options value, endorsement downloaded: each
+	// call gets what its own validator gives in isolation, whichever validator was built last
+	{
+		if _, err := vk.RunTLC(vk.TLCOpts{Module: "SnpValidator", Config: "Neg_SnpValidator_fam.cfg", Timeout: 5 * time.Minute, ExpectViolation: true}); err != nil {
+			run.Infra(err)
+			return
+		}
+		em, err := vk.RunTLC(vk.TLCOpts{Module: "SnpValidator", Config: "Emit_SnpValidator_fam.cfg", Workers: 1, Timeout: 10 * time.Minute})
+		if err != nil {
+			run.Infra(err)
+			return
+		}
+		run.AddTLC(em)
+		const otherFamily = "5b6f4d2c-9a31-4e0f-8c57-2d1e3f4a5b6c"
+		famID := map[string]string{"gce": sev.GCEUefiFamilyID, "other": otherFamily}
+		good := env.attOf["endorsed"].GetReport().GetMeasurement()
+		for _, raw := range em.Cases {
+			var c struct {
+				Att    []string `json:"att"`
+				Sched  []seg    `json:"sched"`
+				Vfam   []string `json:"vfam"`
+				Optfam string   `json:"optfam"`
+			}
+			if err := json.Unmarshal(raw, &c); err != nil {
+				run.Infra(err)
+				return
+			}
+			shared := env.roots()
+			shared.Getter = &MapGetter{Body: map[string][]byte{snpURL(good): env.eb}}
+			// build one validator per family, the one named by optfam last
+			order := []string{"other", "gce"}
+			if c.Optfam == "other" {
+				order = []string{"gce", "other"}
+			}
+			vals := map[string]func(*spb.Attestation, []byte) error{}
+			for _, f := range order {
+				vals[f] = verify.SNPFamilyValidateFunc(famID[f], shared)
+			}
+			var calls []func() error
+			for p := range c.Att {
+				a, v := env.attOf[c.Att[p]], vals[c.Vfam[p]]
+				calls = append(calls, func() error { return v(a, nil) })
+			}
+			res, ferr := forced(calls, c.Sched)
+			if ferr != nil {
+				run.Infra(ferr)
+				return
+			}
+			for p, acc := range res {
+				// in isolation: a fresh options value, only this validator built from it
+				o := env.roots()
+				o.Getter = &MapGetter{Body: map[string][]byte{snpURL(good): env.eb}}
+				alone := verify.SNPFamilyValidateFunc(famID[c.Vfam[p]], o)(env.attOf[c.Att[p]], nil) == nil
+				if acc != alone {
+					run.Violation("not-reentrant:validators-of-two-families", fmt.Sprintf("call %d (%s attestation through the %s-family validator, endorsement downloaded) got accept=%v with validators of two families built from one options value (the %s-family one last); a validator built alone gives %v", p+1, c.Att[p], c.Vfam[p], acc, c.Optfam, alone),
+						map[string]any{"attestations": c.Att, "validators": c.Vfam, "built_last": c.Optfam, "schedule": c.Sched})
+				}
+			}
+			run.Case("families"+string(raw), true)
+		}
+	}
+	// successive use of one validator over the download path: rejected reports (failed downloads) must
+	// not change what later calls get, however many there are
+	{
+		good := env.attOf["endorsed"].GetReport().GetMeasurement()
+		o := env.roots()
+		o.Getter = &MapGetter{Body: map[string][]byte{snpURL(good): env.eb}}
+		one := verify.SNPValidateFunc(o)
+		for round := 0; round < 8; round++ {
+			for _, kind := range []string{"unendorsed", "endorsed"} {
+				a := env.attOf[kind]
+				done := make(chan error, 1)
+				go func() {
+					defer func() {
+						if r := recover(); r != nil {
+							done <- fmt.Errorf("PANIC: %v", r)
+						}
+					}()
+					done <- one(a, nil)
+				}()
+				select {
+				case err := <-done:
+					if (err == nil) != env.alone[kind] {
+						run.Violation("not-reentrant:successive-downloads", fmt.Sprintf("call %d on one validator (%s attestation, endorsement downloaded) got accept=%v; alone it gets %v (%v)", 2*round+1, kind, err == nil, env.alone[kind], err), nil)
+					}
+				case <-time.After(20 * time.Second):
+					run.Violation("validator-blocks:successive-downloads", fmt.Sprintf("call %d on one validator (%s attestation, after %d rejected reports whose download failed) does not return", 2*round+1, kind, round+1), nil)
+					round = 99
+				}
+				if round == 99 {
+					break
+				}
+				run.Case(fmt.Sprintf("successive-download:%d:%s", round, kind), true)
 			}
 		}
 	}
@@ -354,7 +486,7 @@ func RunC09(run *vk.Run) {
 		run.Extra["race_stress"] = "skipped (no -race binary)"
 	}
 	run.Exhaustive = true
-	run.Rule = "every interleaving of the two segments of N concurrent validator calls (N=2,3; thorough also 4) x every assignment of endorsed/unendorsed attestations emitted by TLC is forced on the real closure with the verifhook gate, in five sharing modes (one validator, validators from one Options value, SevValidate with a given endorsement, SevValidate extracting it, SevValidate with a shared base policy over two endorsed builds); each call's result is compared with its isolated result; plus a free-running 16-goroutine stress under the race detector"
+	run.Rule = "every interleaving of the two segments of N concurrent validator calls (N=2,3; thorough also 4) x every assignment of endorsed/unendorsed attestations emitted by TLC is forced on the real closure with the verifhook gate, in six sharing modes (validators of two firmware families built from one options value over the download path, one validator, validators from one Options value, SevValidate with a given endorsement, SevValidate extracting it, SevValidate with a shared base policy over two endorsed builds); each call's result is compared with its isolated result; plus a free-running 16-goroutine stress under the race detector"
 }
 
 func tailStr(s string, n int) string {
